@@ -151,6 +151,10 @@ def run(ctx):
         rows, stats = cc.run_driver(ctx, binp, inp, tag)
         v = cc.validate(ctx, rows, info3, byz3, 14, tag, dedupe=True)
         account(v, rows, "3+1 " + tag)
+        prow, pv = cc.plan_from_drift_net(ctx, binp, rows, v["drift"], inp, info3, byz3, 14, tag)
+        if pv is not None:
+            account(pv, prow, "3+1 " + tag + ", continuations planned by TLC from the observed drifting state")
+            cov["drift_planning_" + tag] = {"schedules": pv["runs"], "property_failures": len(pv["viol"])}
         cov["configs"].append({"config": "3 correct + 1 Byzantine (%s), powers %s: asynchronous prefixes + synchronous suffix" % (byz3[0], powers),
                                "prefixes_from_tlc_simulation": len(scheds) - 3 * len(pre),
                                "goal_prefixes": [a["name"] for a in pre], "driver": stats,
